@@ -45,7 +45,19 @@ prop(
         "inside a header, inside the serial query payload, inside an Error Report, after a complete and answered query), in one of the three delivery patterns, a quarter with a "
         "notification fired in the first scheduler turns; the driver yields turn by turn. One evaluation = one judged client step or one server connection run. "
         "Signatures: (client path, version, damage class, PDU position first/middle/last/only payload | cache response | end of data, PDU type, delivery) and "
-        "(server: PDU the stream ends in, version, where it ends, delivery, notification?)."
+        "(server: PDU the stream ends in, version, where it ends, delivery, notification?). "
+        "(c) whole conversations (module c07_sess; same stages as (a)): one client, 2..4 exchanges on one connection, laid out by the independent encoder for versions 0..2 - per exchange "
+        "a Serial Notify at the idle position (from the second exchange on), then either Cache Response, 0..3 payload PDUs, End of Data, or Cache Reset followed by such a response to the "
+        "reset query (a third of the exchanges in which the client has state); a client with or without initial state asking with the transcript's version or a higher one; in a third of "
+        "the transcripts with a higher asking version an 'unsupported protocol version' Error Report precedes the first response. The client is called once per exchange through "
+        "Client::step or through Client::update + Client::apply (alternating per transcript), by hand as in (a), up to the call that reads the fault. One fault per run, at EVERY PDU of the "
+        "transcript (idle/notify, version Error Report, Cache Reset, Cache Response, every payload PDU, End of Data, in every exchange): version octet (0, 1, 2, 3, 0x7F, 0xFF, one random), "
+        "type octet (0..13, 0x7F, 0xFF, one random), length field (19 values: 0, 7..36 at the fixed sizes, true-4/-1/+1/+4/+8, true+2^16), the PDU resized coherently (cut or zero-padded to "
+        "8..36 / true-4/+4/+8 octets with the length field saying so), the PDU replaced by each of 12 PDUs laid out with the session's version (one of every type of the library: Serial Notify, "
+        "Serial Query, Reset Query, Cache Response, IPv4, IPv6, End of Data, Cache Reset, Router Key, two Error Reports, ASPA), each of these 12 inserted in front of it; and the stream ending "
+        "after every octet count within 9 octets of a PDU boundary and every third one elsewhere. Delivery per transcript: all at once, byte-wise with Pending, or a random chunk/Pending script. "
+        "One evaluation = one conversation run up to and including the judged call. Signatures: (entry point, version, damage class, reading position idle | first reply to serial query | first "
+        "reply to reset query | payload sequence, role of the PDU, exchange 1 / 2 / 3+, delivery)."
     ),
     assumptions=[
         "the wire layout of the harness' encoder is the one of RFC 6810 / RFC 8210 and of the ASPA PDU as implemented (flags in the high octet of the session field, customer, providers)",
@@ -60,6 +72,17 @@ prop(
         "the damaged PDU and the one after it (version) / max(32, announced length) octets (type, length). Everything else (a type change that gives another well-formed PDU of a possible "
         "length, a still possible length of a variable-length PDU, a changed session/flags field) is recorded as accepted/refused, not judged; an undamaged transcript that is refused is "
         "reported as a note. A step that returns Pending without a wake-up (waiting on a timer) is recorded, not judged",
+        "whole conversations (c07_sess), what must end in Err from the call that reads the fault - decided from the header the client finds at that reading position after the fault was "
+        "applied, by a grammar of the router side of RFC 6810 / 8210: (1) a type no cache sends at that position: idle - anything but Serial Notify (an Error Report ends the session, so Err "
+        "as well); first reply to a serial query - anything but Cache Response, Cache Reset (read on) and Error Report, Serial Notify (left open: version negotiation, 'ignore notifies during "
+        "start-up'); first reply to a reset query - anything but Cache Response (read on) and Error Report, Serial Notify, Cache Reset (left open); between Cache Response and End of Data - "
+        "anything but IPv4, IPv6, Router Key, ASPA, End of Data (read on) and Serial Notify (left open), so Error Reports, Cache Response, Cache Reset, queries and unassigned types must fail there; "
+        "(2) for a type that is read on: a length no PDU of that type has (as above; Serial Notify 12, Cache Reset / Cache Response 8); (3) for a type that is read on with a possible length: a "
+        "version octet other than the one every other PDU of the conversation carries - this includes the Serial Notify at the idle position and the Cache Reset (RFC 8210 section 7: a PDU of "
+        "another version after negotiation ends the session); (4) a stream that ends before the last exchange is complete. Octets taken when giving up: at most max(32, announced length) from "
+        "the judged header (type, length), the judged PDU plus the next one of the same exchange (version). A fault that leaves a header the grammar reads on with (a PDU replaced by or "
+        "preceded by another payload PDU or End of Data, a still possible length, a resized Error Report) is recorded as accepted/refused; an earlier call that fails on undamaged octets and "
+        "an undamaged transcript that is refused are recorded (note), not judged",
         "connection level, server: after the peer closed, the connection task must be gone (socket dropped) within 16*(stream length+8)+64 scheduler turns, without reading the socket more "
         "than twice after end-of-stream (the mock answers the third read with an error, which turns a busy loop on a closed socket into a bounded, observable event) and without sitting idle",
     ],
@@ -72,13 +95,17 @@ prop(
         "(16 forks, ASan build) over arbitrary byte streams through the same entry points and the same oracle, so payload octets and header fields are varied together, "
         "not one header field at a time. The connection-level part executes the same fault classes against the two stateful readers built on the PDU layer - Client::step (serial(), reset(), "
         "the first-reply readers, version bookkeeping across PDUs and across exchanges) and the server's connection task (header read raced against notifications) - at every PDU position "
-        "of a response and every octet position of a query stream, with logical bounds (poll budget, scheduler-turn budget, reads after end-of-stream) instead of a clock."
+        "of a response and every octet position of a query stream, with logical bounds (poll budget, scheduler-turn budget, reads after end-of-stream) instead of a clock. "
+        "Whole conversations of 2..4 exchanges add the positions only a client with a completed exchange behind it reaches - the idle wait for a Serial Notify, Cache Reset and the fallback "
+        "to a reset query, the version Error Report - with faults at every PDU of the conversation judged per reading position."
     ),
     level_note=(
         "Field values and multi-PDU sequences are sampled, not enumerated; PDUs above 4 KiB get a boundary-dense subset of truncation points; "
         "byte-wise delivery is complete only up to 160 octets per stream. A spin inside one poll that never touches the reader would only be seen by the outer watchdog (inconclusive). "
-        "Connection level: one damaged header field per transcript, values of the fields sampled at boundaries; the server's output side never blocks in this workload (C08 covers that)."
+        "Connection level: one damaged header field per transcript, values of the fields sampled at boundaries; the server's output side never blocks in this workload (C08 covers that). "
+        "Whole conversations: one fault per conversation; the client's clock never moves (the refresh timer of the idle wait does not fire), the target accepts everything, "
+        "what the client writes (queries, Error Reports) is kept in the detail but not judged here (C06)."
     ),
-    technique="runtime oracle + fault enumeration (truncating AsyncRead, poll budget; PDU readers, Client::step and the server connection task) + Miri/ASan + libFuzzer",
+    technique="runtime oracle + fault enumeration (truncating AsyncRead, poll budget; PDU readers, Client::step / update+apply over single responses and over multi-exchange conversations with a per-position grammar, the server connection task) + Miri/ASan + libFuzzer",
     design_ref="DESIGN.md §4 C07",
 )
